@@ -113,7 +113,7 @@ Sel(i, j, k) == (i + j + k + (Seed % 1000)) % Mod = 0
 
 \* the first component a family is enumerated by (picked in Init), the rest in Next
 FirstRange(fam) ==
-  CASE fam \in {"bin1", "bin2", "bin3", "pre1", "pre2", "suf1", "suf2", "prim1", "prim2", "prim3", "iskw"} -> 1..NB
+  CASE fam \in {"bin1", "bin2", "bin3", "pre1", "pre2", "suf1", "suf2", "prim1", "prim2", "prim3", "iskw", "lvl3"} -> 1..NB
     [] fam \in {"prepre", "presuf", "preprim"} -> 1..3
     [] fam = "chain4" -> 1..5
     [] fam = "sufsuf" -> 1..Len(Suf2Seq)
@@ -128,6 +128,11 @@ DescsOf(fam, i1) ==
     [] fam = "bin2" -> {MkBin(<<BinOpSeq[i1], BinOpSeq[j]>>) : j \in 1..NB}
     [] fam = "bin3" -> {MkBin(<<BinOpSeq[i1], BinOpSeq[jk[1]], BinOpSeq[jk[2]]>>) :
                           jk \in {x \in (1..NB) \X (1..NB) : Sel(i1, x[1], x[2])}}
+    \* runs of three operators of ONE level (every ordered triple of * / %, of + -, of && ||; the others: the same
+    \* operator three times): the sequences an evaluator may be tempted to flatten, in every quick run
+    [] fam = "lvl3" -> LET o == BinOpSeq[i1]
+                           lvl == IF o \in MulOps THEN MulOps ELSE IF o \in AddOps THEN AddOps ELSE IF o \in LogOps THEN LogOps ELSE {o}
+                       IN {MkBin(<<o, o2, o3>>) : o2 \in lvl, o3 \in lvl}
     [] fam = "pre1" -> LET d == MkBin(<<BinOpSeq[i1]>>) IN
                        {WithPre(d, q, <<u>>) : q \in PrePositions(d), u \in PrefixOps}
     [] fam = "pre2" -> UNION {LET d == MkBin(<<BinOpSeq[i1], BinOpSeq[j]>>) IN
@@ -404,9 +409,11 @@ NCand(f, np) == IF AllCands(f, np) THEN Pow(NPool, np) ELSE IF np = 3 THEN Len(T
 Decode(code, np) == [p \in 1..np |-> (((code - 1) \div Pow(NPool, (p - 1) % 4)) % NPool) + 1]
 Cand(f, np, c) == Decode(IF AllCands(f, np) THEN c ELSE IF np = 3 THEN Table3[c] ELSE Table4[c], np)
 
+Env0(np, cand) == [x \in {VarName[p] : p \in 1..np} |-> Pool[cand[CHOOSE p \in 1..np : VarName[p] = x]]]
+Ty0(np, cand) == [x \in {TyName(p) : p \in 1..np} |-> TyPool[cand[CHOOSE p \in 1..np : TyName(p) = x]]]
 Outcome(t, np, cand) ==
-  LET env0 == [x \in {VarName[p] : p \in 1..np} |-> Pool[cand[CHOOSE p \in 1..np : VarName[p] = x]]]
-      ty == [x \in {TyName(p) : p \in 1..np} |-> TyPool[cand[CHOOSE p \in 1..np : TyName(p) = x]]]
+  LET env0 == Env0(np, cand)
+      ty == Ty0(np, cand)
       r == Ev(t, env0, ty)
   IN IF Bad(r.v) THEN [k |-> r.v.k, v |-> r.v, env |-> <<>>]
      ELSE IF r.v.k = "r" \/ \E p \in 1..np : r.env[VarName[p]].k = "r" THEN [k |-> "unk", v |-> UnkV, env |-> <<>>]
@@ -414,6 +421,125 @@ Outcome(t, np, cand) ==
 
 Known(o) == o.k # "unk"
 Discr(o1, o2) == Known(o1) /\ Known(o2) /\ o1 # o2
+
+
+\* ------------------------------------------------- staged evaluation
+\* "Parentheses override everything" on the EVALUATOR's side, without a reference value: the grouping of t is
+\* imposed by statement sequencing.  Stage(t): one assignment statement per operator application of t, innermost
+\* first, left to right, each applying ONE operator to operands, temporaries or sub-expressions this grammar does
+\* not open (member, index, call, array literal: written fully parenthesised), then the value of the last.  No
+\* grouping decision is left to the parser or the evaluator.  For trees without assignment (operands are pure, so
+\* evaluating a right operand that && / || would have skipped changes nothing unless it fails): if the staged
+\* program runs, the expression must print what it prints - under ANY operand values, in particular decimal
+\* fractions, on which + and * are not associative in binary floating point (FPool; outside the universe of Ev).
+RECURSIVE HasAssign(_)
+AnyAssign(ts) == \E j \in 1..Len(ts) : HasAssign(ts[j])
+HasAssign(t) ==
+  CASE t.k = "bin" -> t.op \in AssignOps \/ HasAssign(t.l) \/ (t.r.k # "ty" /\ HasAssign(t.r))
+    [] t.k = "un" -> HasAssign(t.e)
+    [] t.k = "dot" -> HasAssign(t.e)
+    [] t.k = "idx" -> HasAssign(t.e) \/ HasAssign(t.x)
+    [] t.k = "call" -> HasAssign(t.f) \/ AnyAssign(t.args)
+    [] t.k = "arr" -> AnyAssign(t.items)
+    [] OTHER -> FALSE
+RECURSIVE HasLogical(_)
+HasLogical(t) ==
+  CASE t.k = "bin" -> t.op \in LogOps \/ HasLogical(t.l) \/ (t.r.k # "ty" /\ HasLogical(t.r))
+    [] t.k = "un" -> HasLogical(t.e)
+    [] OTHER -> FALSE
+Stageable(t) == ~HasAssign(t) /\ t.k \in {"bin", "un"}
+
+TmpName(n) == "y" \o ToString(n)
+TmpTok(n) == <<Tok("Ident", TmpName(n))>>
+RECURSIVE StageR(_, _)
+StageR(t, n) ==
+  CASE t.k = "bin" /\ t.op = "is" ->
+         LET l == StageR(t.l, n) IN
+         [steps |-> Append(l.steps, [tmp |-> TmpName(l.n), toks |-> Paren(l.atom \o <<Sym("is"), LeafTok(t.r)>>)]),
+          atom |-> TmpTok(l.n), n |-> l.n + 1]
+    [] t.k = "bin" ->
+         LET l == StageR(t.l, n)
+             r == StageR(t.r, l.n)
+         IN [steps |-> Append(l.steps \o r.steps, [tmp |-> TmpName(r.n), toks |-> Paren(l.atom \o <<Sym(t.op)>> \o r.atom)]),
+             atom |-> TmpTok(r.n), n |-> r.n + 1]
+    [] t.k = "un" ->
+         LET e == StageR(t.e, n) IN
+         [steps |-> Append(e.steps, [tmp |-> TmpName(e.n), toks |-> Paren(<<Sym(t.op)>> \o e.atom)]),
+          atom |-> TmpTok(e.n), n |-> e.n + 1]
+    [] OTHER -> [steps |-> <<>>, atom |-> FullP(t), n |-> n]
+Stage(t) == StageR(t, 1)
+
+\* operator applications of t outside member / index / call / array sub-expressions
+RECURSIVE OpenSize(_)
+OpenSize(t) ==
+  CASE t.k = "bin" -> 1 + OpenSize(t.l) + (IF t.r.k = "ty" THEN 0 ELSE OpenSize(t.r))
+    [] t.k = "un" -> 1 + OpenSize(t.e)
+    [] OTHER -> 0
+
+\* the reference evaluation of the staged program
+RECURSIVE EvSteps(_, _, _, _)
+EvSteps(steps, j, env, ty) ==
+  IF j > Len(steps) THEN [ok |-> TRUE, env |-> env]
+  ELSE LET r == Ev(ParseExpr(steps[j].toks), env, ty) IN
+       IF Bad(r.v) THEN [ok |-> FALSE, env |-> env]
+       ELSE EvSteps(steps, j + 1, [x \in DOMAIN r.env \cup {steps[j].tmp} |-> IF x = steps[j].tmp THEN r.v ELSE r.env[x]], ty)
+
+StageLaw(t, f, np, nc) ==
+  Stageable(t) =>
+    LET sg == Stage(t) IN
+    /\ Len(sg.steps) = OpenSize(t)
+    /\ Len(sg.atom) = 1 /\ sg.atom[1].text = sg.steps[Len(sg.steps)].tmp
+    \* every step applies one operator to operands that are no operator applications themselves
+    /\ \A j \in 1..Len(sg.steps) :
+         LET st == ParseExpr(sg.steps[j].toks) IN
+         /\ st.k \in {"bin", "un"}
+         /\ st.k = "bin" => st.l.k \notin {"bin", "un"} /\ st.r.k \notin {"bin", "un"}
+         /\ st.k = "un" => st.e.k \notin {"bin", "un"}
+    \* and under the reference evaluation the staged program, where it runs, gives the value of t; without
+    \* && and || it runs exactly where t evaluates
+    /\ \A c \in {1 + k * (nc \div 6) : k \in 0..5} :
+         LET cand == Cand(f, np, c)
+             ty == Ty0(np, cand)
+             direct == Ev(t, Env0(np, cand), ty)
+             sr == EvSteps(sg.steps, 1, Env0(np, cand), ty)
+         IN /\ sr.ok => ~Bad(direct.v) /\ direct.v = sr.env[sg.atom[1].text]
+            /\ (~HasLogical(t) /\ ~Bad(direct.v)) => sr.ok
+
+\* operand values outside the universe of Ev: decimal fractions (k = "f", s = the spelling)
+FltV(s) == [k |-> "f", n |-> 0, s |-> s, b |-> FALSE]
+FPool == <<"1.1", "0.1", "0.7", "0.3", "2.5", "3">>
+FRuns(np, j) ==
+  <<[vals |-> [p \in 1..np |-> FltV(FPool[1])], tys |-> [p \in 1..np |-> "number"]],
+    [vals |-> [p \in 1..np |-> FltV(FPool[((p + j + (Seed % 1000)) % Len(FPool)) + 1])], tys |-> [p \in 1..np |-> "number"]]>>
+
+\* ------------------------------------------------- the tight layout
+\* The same token sequence written with no blank wherever the LEXER (JqLex) reads the text without the blank as
+\* the same tokens - decided token by token, left to right, by lexing both spellings - and one blank elsewhere
+\* (`a is T`, `- -a`, `a < -b` but `a<- b`...).  `o.k-b`, `r[1]-b`, `f(2)*-a`: what binds tightest must not
+\* depend on blanks around the operators.
+Lx == INSTANCE JqLex
+LexSig(str) == LET r == Lx!Tokens(Chars(str)) IN IF r.err \/ r.open THEN << <<"error", Chars(str)>> >> ELSE Lx!Sig(r.toks)
+RECURSIVE TightR(_, _, _, _)
+TightR(toks, j, sofar, gaps) ==
+  IF j > Len(toks) THEN gaps
+  ELSE LET g == IF LexSig(sofar \o toks[j].text) = LexSig(sofar \o " " \o toks[j].text) THEN "" ELSE " "
+       IN TightR(toks, j + 1, sofar \o g \o toks[j].text, Append(gaps, g))
+\* (JqLex decides "regex or division" by the token before the `/`; after the `}` of an object literal or a match
+\* expression only the parser knows: such texts keep their blanks)
+TightOk(toks) == \A j \in 1..(Len(toks) - 1) :
+                   ~(toks[j].tag = "Prim" /\ SubSeq(toks[j].text, Len(toks[j].text), Len(toks[j].text)) = "}" /\ toks[j + 1].tag \in {"/", "/="})
+Gaps(toks) == IF TightOk(toks) THEN TightR(toks, 2, toks[1].text, <<>>) ELSE [j \in 1..(Len(toks) - 1) |-> " "]
+RECURSIVE Spell(_, _, _)
+Spell(toks, gaps, j) == IF j > Len(toks) THEN "" ELSE (IF j > 1 THEN gaps[j - 1] ELSE "") \o toks[j].text \o Spell(toks, gaps, j + 1)
+Spaced(toks) == Spell(toks, [j \in 1..(Len(toks) - 1) |-> " "], 1)
+TightLaw(toks) ==
+  TightOk(toks) =>
+  LET gaps == Gaps(toks) IN
+  /\ LexSig(Spell(toks, gaps, 1)) = LexSig(Spaced(toks))          \* the same tokens
+  /\ LexSig(Spaced(toks))[1][1] # "error"
+  \* no blank that is left is redundant
+  /\ \A j \in {x \in 1..Len(gaps) : gaps[x] = " "} :
+       LexSig(Spell(toks, [gaps EXCEPT ![j] = ""], 1)) # LexSig(Spaced(toks))
 
 \* ------------------------------------------------------------------ states
 VARIABLES fam, i1, d, done
@@ -497,6 +623,8 @@ Laws ==
     LET cs == Cases(d)
         flat == Flat(d)
     IN /\ \A t \in cs : TreeLaws(t, flat)
+       /\ \A t \in cs : StageLaw(t, fam, Len(d.ops) + 1, NCand(fam, Len(d.ops) + 1))
+       /\ \A t \in cs : TightLaw(Render(t))
        /\ LET cseq == SetToSeq(cs) IN \A j \in 1..Len(cseq) : SiteLaw(cseq[j], SitesOf(cseq[j], j))
        \* the bare token sequence, where it has a meaning, is the minimal rendering or one of the bare texts of its tree
        /\ ParseExpr(flat).k # "error" => (Render(ParseExpr(flat)) = flat \/ flat \in Bares(ParseExpr(flat)))
@@ -556,6 +684,12 @@ CaseVec(t, cseq, np, nc, table, j) ==
       alts |-> [x \in 1..(Len(cseq) - 1) |-> Texts(FullParen(cseq[IF x < j THEN x ELSE x + 1]))],
       bares |-> LET bs == SetToSeq(Bares(t)) IN [x \in 1..Len(bs) |-> Texts(bs[x])],
       sites |-> SetToSeq(SitesOf(t, j)),
+      gaps |-> Gaps(rt),
+      stage |-> IF Stageable(t)
+                THEN LET sg == Stage(t) IN
+                     <<[steps |-> [q \in 1..Len(sg.steps) |-> [tmp |-> sg.steps[q].tmp, toks |-> Texts(sg.steps[q].toks)]],
+                        atom |-> Texts(sg.atom), fruns |-> FRuns(np, j)]>>
+                ELSE <<>>,
       nalt |-> Cardinality(others),
       ndisc |-> Cardinality({x \in others : firstDisc(x) # 0}),
       runs |-> [q \in 1..Len(runs) |->
